@@ -98,10 +98,28 @@ def extract_window(ctx, prog, rule):
                         ok_win = arr[0] == "repeat" and const_val(arr[1]) == 0 and arr[2].strip().startswith("16")
     ctx.ob(rule, "window/extract-result", ok_ret, "extract returns %s (must be (u128::from_le_bytes(window) >> (offset %% 8)) as u64)" % desc[:200])
     ctx.ob(rule, "window/size", ok_win, "the window is a zeroed [u8; 16]: 64 bits at bit phase 7 span 9 bytes, so a window of 8 bytes or a u64 drops bits")
-    for bi, t in f.calls(lambda c, t: c.endswith("copy_from_slice")):
-        dst = slice_of(R.operand(t["args"][0]))
-        src = slice_of(R.operand(t["args"][1]))
-        if dst and src and is_self_field(src[0], "buffer") and src[1] == "range":
+    copies = [(R.operand(t["args"][0]), R.operand(t["args"][1]), False) for bi, t in f.calls(lambda c, t: c.endswith("copy_from_slice"))]
+    # element-wise spelling: for (d, s) in dst.iter_mut().zip(src) { *d = *s }
+    import elems
+    for n_, ds_ in f.defs().items():
+        for kind_, payload_, bi_, si_, place_ in ds_:
+            if kind_ != "stmt" or bi_ not in f.cfg() or len(place_["proj"]) != 1 or place_["proj"][0]["k"] != "deref":
+                continue
+            tr_ = R.local(place_["local"])
+            tr_ = tr_[1] if tr_[0] == "partial" else tr_
+            de, se = elems.elem_of(tr_), elems.elem_of(R.rvalue(payload_))
+            if de is None or se is None or de[1] or se[1] or not elems.same_position(de, se) or de[2][0] != "next":
+                continue
+            dv, sv = de[0], se[0]
+            while strip(dv)[0] == "call" and strip(dv)[1].rsplit("::", 1)[-1] in ("iter_mut", "into_iter") and strip(dv)[2]:
+                dv = strip(dv)[2][0]
+            while strip(sv)[0] == "call" and strip(sv)[1].rsplit("::", 1)[-1] in ("iter", "into_iter") and strip(sv)[2]:
+                sv = strip(sv)[2][0]
+            copies.append((dv, sv, True))
+    for dtree, stree, zipped in copies:
+        dst = slice_of(dtree)
+        src = slice_of(stree)
+        if src and is_self_field(src[0], "buffer") and src[1] == "range" and (dst or zipped):
             lo, hi = strip_casts(src[2]), strip_casts(src[3])
             oklo = lo[0] == "binop" and lo[1] == "Div" and is_self_field(lo[2], "offset") and const_val(lo[3]) == 8
             okhi = False
@@ -110,11 +128,19 @@ def extract_window(ctx, prog, rule):
                 if n[0] == "binop" and n[1] == "Add" and const_val(n[3]) == 7:
                     m = strip_casts(n[2])
                     okhi = m[0] == "binop" and m[1] == "Add" and is_self_field(m[2], "offset") and strip_casts(m[3]) == ("param", 2)
-            okn = dst[1] == "to" and strip_casts(dst[3])[0] == "binop" and strip_casts(dst[3])[1] == "Sub" and strip_casts(strip_casts(dst[3])[2]) == hi and strip_casts(strip_casts(dst[3])[3]) == lo
-            if not okn and dst[1] == "to":
-                # the window is cut to the length of the source slice itself
-                n_ = strip_casts(dst[3])
-                okn = n_[0] == "call" and n_[1].endswith("::len") and tree_str(strip_deep(n_[2][0])) == tree_str(strip_deep(strip(R.operand(t["args"][1]))))
+            okn = False
+            if dst and dst[1] == "to":
+                okn = strip_casts(dst[3])[0] == "binop" and strip_casts(dst[3])[1] == "Sub" and strip_casts(strip_casts(dst[3])[2]) == hi and strip_casts(strip_casts(dst[3])[3]) == lo
+                if not okn:
+                    # the window is cut to the length of the source slice itself
+                    n_ = strip_casts(dst[3])
+                    okn = n_[0] == "call" and n_[1].endswith("::len") and tree_str(strip_deep(n_[2][0])) == tree_str(strip_deep(strip(stree)))
+            elif zipped and not dst:
+                # zip over the whole window stops at the end of the (shorter) source slice
+                w_ = strip(dtree)
+                while w_[0] in ("partial", "ref"):
+                    w_ = strip(w_[1])
+                okn = w_[0] == "repeat"
             ok_src = oklo and okhi and okn
     ctx.ob(rule, "window/source-bytes", ok_src, "window[..end-start] <- buffer[offset/8 .. (offset+bits+7)/8]")
     offs = field_assignments(f, "bs_read::ByteStreamReadBuffer", "offset")
@@ -254,6 +280,8 @@ def add_bits_shape(ctx, prog, rule):
             if is_variant_agg(st["rv"], "ops::Range", "Range"):
                 lo, hi = (strip(R.operand(o)) for o in st["rv"]["ops"])
                 rng = const_val(lo) == 0 and strip_casts(hi) == ("param", 3)
+    for n_, (h_, init_, bound_) in counter_locals(f).items():
+        rng = const_val(strip(R.operand(init_))) == 0 and strip_casts(strip(R.operand(bound_))) == ("param", 3)
     ctx.ob(rule, "add-bits/loop-range", rng, "the bit loop runs for b in 0..bits")
     # full_bytes / all_bytes / get_* agree
     g = prog.fn("bs_write::ByteStreamWriteBuffer::get_full_bytes")
